@@ -198,7 +198,7 @@ class Engine:
                                              "link_probe", "failed_before"]),
                             "u": f.random(), "ku": f.random(), "frac": f.choice([0.0, 0.1, 0.5, 0.9, 0.999]),
                             "xor": f.choice([1, 0x20, 0x80, 0xFF]), "bufsize": f.choice([1, 16, 64, 8192]),
-                            "max_read": f.choice([None, None, 1, 7])})
+                            "max_read": f.choice([None, None, 1, 7]), "sticky": f.random() < 0.3})
             picks.append(one)
         return {**base, "mode": "sampled", "picks": picks}
 
@@ -480,6 +480,8 @@ def _resolve_pick(pick: dict, trace: list):
         k["bufsize"] = pick["bufsize"]
         if pick.get("max_read"):
             k["max_read"] = pick["max_read"]
+    if pick.get("sticky") and k["kind"] not in CONTENT_KINDS:
+        k["sticky"] = True
     return _concrete(t, trace, k)
 
 
@@ -530,6 +532,8 @@ def _delivery_probes(delivered, fp, count):
             count("probe_fault_delivered_on_link_probe")
     if len(delivered) >= 2:
         count("probe_two_or_more_faults_delivered_in_one_pass")
+    if len(delivered) > len(fp):
+        count("probe_sticky_fault_hit_a_retry_or_later_call")
 
 
 # ---------------------------------------------------------------------- one pass (in a forked child)
